@@ -23,7 +23,11 @@ def traced_pipeline(succ):
         except Exception:  # noqa: BLE001
             return None
 
+    depth = [0]
+
     def ex(sub, region_blocks, region_kind, parent_region, *a, **k):
+        if depth[0]:
+            return orig_extract(sub, region_blocks, region_kind, parent_region, *a, **k)
         before = snap()
         had = {n for n, b in sub.graph.items() if isinstance(b, bb.RegionBlock)}
         res = orig_extract(sub, region_blocks, region_kind, parent_region, *a, **k)
@@ -36,18 +40,49 @@ def traced_pipeline(succ):
         return res
 
     def ins(self, new_name, predecessors, successors, block_type, *a, **k):
+        if depth[0]:
+            return orig_insert(self, new_name, predecessors, successors, block_type, *a, **k)
         before = snap()
         res = orig_insert(self, new_name, predecessors, successors, block_type, *a, **k)
         after = snap()
         succs = list(successors)
         if before and after and len(succs) == 1:
             events.append(("spliced", before[1], after[1], new_name, succs[0], before[0]))
+        elif before and after and len(succs) == 0:
+            events.append(("closed", before[1], after[1], new_name, "-", before[0]))
         else:
             events.append(("insert-other", "", "", "", "", ""))
         return res
+    orig_ctl = scfg_mod.SCFG.insert_block_and_control_blocks
+    orig_loop = tr.loop_restructure_helper
+
+    def composite(kind, call):
+        if depth[0]:
+            return call()
+        before = snap()
+        depth[0] += 1
+        try:
+            res = call()
+        finally:
+            depth[0] -= 1
+        after = snap()
+        if before and after:
+            events.append((kind, before[1], after[1], "", "", before[0]))
+        else:
+            events.append((kind + "-unobservable", "", "", "", "", ""))
+        return res
+
+    def ctl(self, *a, **k):
+        return composite("rerouted-ctl", lambda: orig_ctl(self, *a, **k))
+
+    def loop(sub, lp, *a, **k):
+        return composite("rerouted-loop", lambda: orig_loop(sub, lp, *a, **k))
     tr.extract_region = ex
     scfg_mod.SCFG.insert_block = ins
+    scfg_mod.SCFG.insert_block_and_control_blocks = ctl
+    tr.loop_restructure_helper = loop
     aborted = False
+    first = snap()
     try:
         scfg.join_returns()
         scfg.restructure_loop()
@@ -57,6 +92,10 @@ def traced_pipeline(succ):
     finally:
         tr.extract_region = orig_extract
         scfg_mod.SCFG.insert_block = orig_insert
+        scfg_mod.SCFG.insert_block_and_control_blocks = orig_ctl
+        tr.loop_restructure_helper = orig_loop
+    last = snap()
+    traced_pipeline.ends = (first, last)
     return events, aborted
 
 
@@ -66,7 +105,10 @@ def certify(inputs):
     drv = common.Driver()
     lines, meta = [], []
     stats = {"graphs": 0, "extract_region_steps": 0, "extract_region_certified": 0, "extract_region_unobservable": 0,
-             "insert_block_one_successor_steps": 0, "insert_block_certified": 0, "insert_block_other": 0}
+             "insert_block_one_successor_steps": 0, "insert_block_certified": 0, "insert_block_other": 0,
+             "control_block_insertions": 0, "control_block_insertions_certified": 0,
+             "closing_steps": 0, "closing_steps_certified": 0,
+             "loop_restructure_helper_calls": 0, "loop_restructure_helper_certified": 0, "composite_unobservable": 0}
     for succ in inputs:
         events, aborted = traced_pipeline(succ)
         stats["graphs"] += 1
@@ -76,6 +118,11 @@ def certify(inputs):
                 stats["extract_region_unobservable"] += 1
             elif kind == "insert-other":
                 stats["insert_block_other"] += 1
+            elif kind.endswith("-unobservable"):
+                stats["composite_unobservable"] += 1
+            elif kind.startswith("rerouted"):
+                lines += [f"G {top} {before}", f"H {top} {after}", "SPEC rerouted"]
+                meta.append((succ, kind, a, b))
             else:
                 lines += [f"G {top} {before}", f"H {top} {after}", f"SPEC {kind} {a} {b}"]
                 meta.append((succ, kind, a, b))
@@ -88,28 +135,123 @@ def certify(inputs):
             stats["extract_region_certified"] += ok
             if not ok:
                 rejected.append((succ, a, b))
+        elif kind == "closed":
+            stats["closing_steps"] += 1
+            stats["closing_steps_certified"] += ok
+            if not ok:
+                rejected.append((succ, kind, a))
+        elif kind == "rerouted-ctl":
+            stats["control_block_insertions"] += 1
+            stats["control_block_insertions_certified"] += ok
+            if not ok:
+                rejected.append((succ, kind, ""))
+        elif kind == "rerouted-loop":
+            stats["loop_restructure_helper_calls"] += 1
+            stats["loop_restructure_helper_certified"] += ok
+            if not ok:
+                rejected.append((succ, kind, ""))
         else:
             stats["insert_block_one_successor_steps"] += 1
             stats["insert_block_certified"] += ok
     return stats, rejected
 
 
-def coverage(prop, tier, pool):
-    """the `step_certificates` evidence entry for a check, over a deterministic sub-sample of `pool`"""
+def coverage(prop, tier, pool, seed=0):
+    """the `step_certificates` evidence entry for a check, over a deterministic sub-sample of `pool`;
+    for C01 also whole runs (`certified_runs`) and large inputs (`large_inputs`); returns (entry, violations)"""
     budget = (300 if tier == "quick" else 3000) * common.boost()
     pool = [s for s in pool if 3 <= len(s) <= 12]
     sub = pool[:: max(1, len(pool) // budget)][:budget]
     st, rejected = certify(sub)
     st["rejected_examples"] = [{"succ": [list(x) for x in s], "a": a, "b": b} for s, a, b in rejected[:5]]
-    st["meaning"] = ("every real extract_region call and every one-successor insert_block call of the pipeline, whole "
-                     "hierarchy before and after, judged by the decidable relations wrappedB / splicedB; their soundness "
-                     "theorems (Scfg.C01.wrappedB_sound / Scfg.C14.splicedB_sound) give the hypothesis of "
-                     "Scfg.C01.wrapped_paths / Scfg.C14.spliced_paths: that step left every path unchanged, for every "
-                     "decision sequence and every fuel. A rejected step is not a violation (the relations are sufficient, "
-                     "not necessary); the validators decide the property")
+    st["meaning"] = ("every real mutating call of the pipeline (closing insertion, loop_restructure_helper as one step, "
+                     "insert_block_and_control_blocks, one-successor insert_block, extract_region), whole hierarchy before and "
+                     "after, judged by the decidable relations closedB / reroutedB / splicedB / wrappedB; their soundness "
+                     "theorems give the hypotheses of the step theorems (closed_step_paths, rerouted_paths, spliced_paths, "
+                     "wrapped_paths and their converses in Props/C01Conv.lean): that step left every path unchanged and "
+                     "introduced no error, for every decision sequence. A rejected step is not a violation (the relations "
+                     "are sufficient, not necessary); the validators decide the property")
     nr = st["extract_region_steps"] - st["extract_region_certified"]
     ni = st["insert_block_one_successor_steps"] - st["insert_block_certified"]
-    if nr or ni:
-        print(f"note: {prop}: {nr} extract_region and {ni} insert_block steps are outside the certified relations; "
-              "they are decided by the validators only")
-    return st
+    nc = st["control_block_insertions"] - st["control_block_insertions_certified"]
+    nl = st["loop_restructure_helper_calls"] - st["loop_restructure_helper_certified"]
+    if nr or ni or nc or nl:
+        print(f"note: {prop}: {nr} extract_region, {ni} insert_block, {nc} insert_block_and_control_blocks and {nl} "
+              "loop_restructure_helper steps are outside the certified relations; they are decided by the validators only")
+    viol = []
+    if prop == "C01":
+        chains, unc = certify_chains(sub)
+        chains["meaning"] = ("runs_certified_unconditionally: real runs for which Scfg.C01.certified_run_total applies - from "
+                             "every block of the input, every decision sequence, the walk by name over the final hierarchy "
+                             "shows exactly the input's trace and meets no error (decided by local checks, no state space)")
+        chains["uncertified_examples"] = [{"succ": [list(x) for x in s], "first_uncertified_step": k} for s, k in unc[:3]]
+        st["certified_runs"] = chains
+        if chains["runs_certified_unconditionally"] < chains["runs"]:
+            print(f"note: C01: {chains['runs'] - chains['runs_certified_unconditionally']} of {chains['runs']} traced runs are "
+                  "not certified as chains; they are decided by the validators only")
+        from harness import big
+        bigstats, viol = big.run(tier, seed)
+        st["large_inputs"] = bigstats
+    return st, viol
+
+
+TAG = {"wrapped": "wrapped", "spliced": "spliced", "rerouted-ctl": "rerouted", "rerouted-loop": "rerouted", "closed": "closed"}
+
+
+def certify_chains(inputs):
+    """whole runs: the hierarchy exported before the pipeline, before and after every mutating call, and at
+    the end; the run is a certified chain if consecutive exports coincide (nothing changed the graph between
+    two observed calls) and every step passes the Lean check of its kind (`chainOKc`, theorem
+    Scfg.C01.certified_run_total)"""
+    drv = common.Driver()
+    lines, meta = [], []
+    stats = {"runs": 0, "runs_fully_observed": 0, "runs_certified": 0, "runs_certified_unconditionally": 0,
+             "steps_in_certified_runs": 0, "largest_certified_input": 0, "steps_by_kind": {},
+             "input_not_flat": 0, "first_uncertified_step_kinds": {}, "unobserved_change_between_calls": 0}
+    for succ in inputs:
+        events, aborted = traced_pipeline(succ)
+        first, last = traced_pipeline.ends
+        stats["runs"] += 1
+        if aborted or not first or not last:
+            continue
+        cur = first[1]
+        ok = all(e[0] in TAG for e in events)
+        if ok:
+            for e in events:
+                if e[1] != cur:
+                    ok = False
+                    break
+                cur = e[2]
+            ok = ok and cur == last[1]
+        if not ok:
+            stats["unobserved_change_between_calls"] += 1
+            continue
+        stats["runs_fully_observed"] += 1
+        lines.append(f"CHAIN0 {first[0]} {first[1]}")
+        for e in events:
+            lines.append(f"CHAINSTEP {TAG[e[0]]} {e[3] or '-'} {e[4] or '-'} {e[5]} {e[2]}")
+        lines.append("CHAINEND")
+        meta.append((succ, [e[0] for e in events], len(lines) - 1))
+    rep = drv.run(lines) if lines else []
+    uncertified = []
+    for succ, kinds, idx in meta:
+        out = dict(kv.split("=") for kv in rep[idx].split())
+        if out.get("flat") != "1":
+            stats["input_not_flat"] += 1
+        bits = out.get("bits", "-").rstrip("-")
+        for kd, bt in zip(kinds, bits):
+            d = stats["steps_by_kind"].setdefault(TAG[kd], [0, 0])
+            d[0] += 1
+            d[1] += bt == "1"
+        if out.get("flat") == "1" and out.get("chain") == "1":
+            stats["runs_certified"] += 1
+            stats["steps_in_certified_runs"] += len(kinds)
+            if out.get("total") == "1":
+                stats["runs_certified_unconditionally"] += 1
+                stats["largest_certified_input"] = max(stats["largest_certified_input"], len(succ))
+        if not (out.get("flat") == "1" and out.get("total") == "1") and out.get("firstbad", "-") != "-":
+            k = kinds[int(out["firstbad"])]
+            stats["first_uncertified_step_kinds"][k] = stats["first_uncertified_step_kinds"].get(k, 0) + 1
+            uncertified.append((succ, k))
+    stats["steps_by_kind"] = {k: {"steps": v[0], "certified": v[1]} for k, v in stats["steps_by_kind"].items()}
+    return stats, uncertified
